@@ -2,6 +2,7 @@ import LexVerif.Spec.Decimal
 import LexVerif.Props.TablesParse
 import LexVerif.Proof.FastPathExact
 import LexVerif.Proof.BinaryCorrect
+import LexVerif.Proof.SlowBinaryDigits
 /-!
 # C05 — non-decimal radix string→float parsing is correctly rounded (property theorems)
 
@@ -16,11 +17,17 @@ Algorithm level (models `Model.FastPath`, `Model.Binary`; tie: component ops `fp
   marker `power2 + INVALID_FP` is not negative once `power2 ≥ 32768`; API-level input: radix 2,
   `1` `0`×52 `1` `0`×10 `1` `e` `1001110001000000` (= 40000) parses to `0x8740000000000400` instead of `+∞`);
 * `binary_decides` — without `many_digits` (or with `lossy`) `binary` always returns a valid float;
-* `slowBinary_correct` — the full statement of the truncated case, a `Prop` (not proved here).
+* `binary_truncated_correct` — **complete**: a *valid* non-lossy answer for a truncated mantissa is `roundNE x`
+  for every `x ∈ [M, M+1)·base^e` (the true value of the literal);
+* `slowBinary_correct` — the full statement of the undecided case, a `Prop`; `slowBinary_correct_partial`
+  proves it for the single-digit loop (`compact` builds; radix 16 and 32): digit loop, leading-zero skipping,
+  sticky bit, rounding. Missing: the equivalence of the 8-digit fast loop (radix 2 / 4 / 8, non-`compact`)
+  with eight single steps.
 -/
 namespace LexVerif.Props.C05
 open LexVerif.Spec LexVerif.Model LexVerif.Proof.Tables
 open LexVerif.Proof.RoundNE LexVerif.Proof.ExtRound LexVerif.Proof.FastPathExact LexVerif.Proof.BinaryCorrect
+open LexVerif.Proof.SlowBinary
 open LexVerif.Props.TablesParse
 
 /-- the oracle's result never depends on the exponent once the mantissa digits are all zero -/
@@ -138,22 +145,67 @@ example : Binary.binary FTy.f64 2 ⟨3, -1075, false, false⟩ false = .ok ⟨2,
     Binary.binary FTy.f64 16 ⟨0x20000000000001, 0, false, true⟩ false = .ok ⟨9223372036854776832, -31703⟩ := by
   decide +kernel
 
-/-- **`slowBinary_correct` — full statement** (a `Prop`; not proved here): when `binary` could not decide —
-the first `u64_step` significant digits `M` sit exactly half-way above an even significand — `slow_binary`
-returns `roundNE` of the whole literal `(M + 0.d₁d₂…)·base^e`: down to even when every further digit is zero,
-up otherwise. `digits` are digit values `< radix`, most significant first, without leading zeros. -/
+/-- **`binary_truncated_correct`**: the value of the whole literal is `x = (M + r/c)·base^e` with `0 ≤ r < c`
+(`r = 0` when nothing was truncated). If non-lossy `binary` answers with a valid float, that float is
+`roundNE x` — provided the mantissa fills the word up to fewer leading zeros than bits are shifted out
+(`clz(M) < shift`; true whenever `M` holds `u64_step` digits: at most 9 leading zeros against a shift `≥ 11`). -/
+theorem binary_truncated_correct {F : FTy} (hF : F = FTy.f64 ∨ F = FTy.f32) {base : Nat} (hb : IsPow2 base)
+    (n : Num) (hm : n.mantissa < 2 ^ 64) (he : ExpInRange n.exponent) (hmk : MarkerOk F base n)
+    (c r : Nat) (hr : r < c) (hmany : n.manyDigits = false → r = 0) (hM0 : n.mantissa ≠ 0)
+    (hcs : clz64 n.mantissa < shiftOf F.fmt.p (Binary.calculatePower2 F base n.exponent (clz64 n.mantissa)))
+    {fp : ExtendedFloat80} (h : Binary.binary F base n false = .ok fp) (hv : 0 ≤ fp.exp) :
+    extendedToFloat F fp =
+      roundNE F.fmt (powFrac base n.exponent (n.mantissa * c + r)).1
+        ((powFrac base n.exponent (n.mantissa * c + r)).2 * c) := by
+  rcases hF with h' | h' <;> subst h'
+  · exact binary_truncated layout_f64 hb n hm he.1 he.2 hmk c r hr hmany hM0 hcs h hv
+  · exact binary_truncated layout_f32 hb n hm he.1 he.2 hmk c r hr hmany hM0 hcs h hv
+
+/-- the significant digit values of a literal: leading zeros of integer ++ fraction dropped -/
+def sigDigits (radix : Nat) (integer : List Nat) (fraction : Option (List Nat)) : List Nat :=
+  ((integer ++ fraction.getD []).map fun c => Binary.digitVal c radix).dropWhile (· == 0)
+
+/-- **`slowBinary_correct` — full statement** (a `Prop`): when `binary` could not decide — the first
+`u64_step` significant digits `M` sit exactly half-way above an even significand — `slow_binary` returns
+`roundNE` of the whole literal `(M + 0.d₁d₂…)·base^e`: down to even when every further digit is zero,
+up otherwise. Bytes are ASCII digits valid for the radix. -/
 def slowBinary_correct : Prop :=
   ∀ (F : FTy), (F = FTy.f64 ∨ F = FTy.f32) → ∀ (compact : Bool) (radix : Nat), IsPow2 radix →
   ∀ (base : Nat), IsPow2 base → ∀ (u64step : Nat), radix ^ u64step ≤ 2 ^ 64 → 2 ^ 64 < radix ^ (u64step + 1) →
   ∀ (e : Int), ExpInRange e → ∀ (integer : List Nat) (fraction : Option (List Nat)),
-    let bytes := integer ++ fraction.getD []
-    let sig := (bytes.map fun c => Binary.digitVal c radix).dropWhile (· = 0)
-    (∀ d ∈ sig, d < radix) →
-    let val := fun (l : List Nat) => l.foldl (fun acc d => acc * radix + d) 0
-    let first := val (sig.take u64step)
+    (∀ c ∈ integer ++ fraction.getD [], c < 256 ∧ Binary.digitVal c radix < radix) →
+    let sig := sigDigits radix integer fraction
+    let first := valOf radix 0 (sig.take u64step)
     (∃ fp, Binary.binary F base ⟨first, e, false, true⟩ false = .ok fp ∧ fp.exp < 0) →
-    MarkerOk F base ⟨first, e, false, true⟩ →
     extendedToFloat F (Binary.slowBinary F compact radix base u64step e integer fraction) =
-      roundNE F.fmt (powFrac base e (val sig)).1 ((powFrac base e (val sig)).2 * radix ^ (sig.length - u64step))
+      roundNE F.fmt (powFrac base e (valOf radix 0 sig)).1
+        ((powFrac base e (valOf radix 0 sig)).2 * radix ^ (sig.length - u64step))
+
+/-- **`slowBinary_correct_partial`**: the full statement restricted to the single-digit loop of
+`parse_u64_digits` (`compact` builds, or radix 16 / 32 where the 8-digit loop is not compiled in). -/
+theorem slowBinary_correct_partial (F : FTy) (hF : F = FTy.f64 ∨ F = FTy.f32) (compact : Bool) (radix : Nat)
+    (hradix : IsPow2 radix) (hsingle : compact = true ∨ 10 < radix) (base : Nat) (hb : IsPow2 base)
+    (u64step : Nat) (hfit : radix ^ u64step ≤ 2 ^ 64) (hmax : 2 ^ 64 < radix ^ (u64step + 1))
+    (e : Int) (he : ExpInRange e) (integer : List Nat) (fraction : Option (List Nat))
+    (hvalid : ∀ c ∈ integer ++ fraction.getD [], c < 256 ∧ Binary.digitVal c radix < radix)
+    (hund : ∃ fp, Binary.binary F base
+        ⟨valOf radix 0 ((sigDigits radix integer fraction).take u64step), e, false, true⟩ false = .ok fp ∧
+        fp.exp < 0) :
+    extendedToFloat F (Binary.slowBinary F compact radix base u64step e integer fraction) =
+      roundNE F.fmt (powFrac base e (valOf radix 0 (sigDigits radix integer fraction))).1
+        ((powFrac base e (valOf radix 0 (sigDigits radix integer fraction))).2 *
+          radix ^ ((sigDigits radix integer fraction).length - u64step)) := by
+  rcases hF with h' | h' <;> subst h'
+  · exact slowBinary_digits_correct layout_f64 (by decide) compact radix hsingle hradix hb u64step hfit hmax e
+      he.1 he.2 integer fraction hvalid hund
+  · exact slowBinary_digits_correct layout_f32 (by decide) compact radix hsingle hradix hb u64step hfit hmax e
+      he.1 he.2 integer fraction hvalid hund
+
+/-- non-vacuity: radix 16, sixteen digits `8000000000000400` (even, exactly half-way) then `1`: `binary`
+declines, `slow_binary` rounds up; with a `0` tail it rounds to even -/
+example : Binary.binary FTy.f64 16 ⟨0x8000000000000400, 1, false, true⟩ false = .ok ⟨0x8000000000000400, -31689⟩ ∧
+    Binary.slowBinary FTy.f64 false 16 16 16 1 [56,48,48,48,48,48,48,48,48,48,48,48,48,52,48,48,49] none = ⟨1, 1090⟩ ∧
+    Binary.slowBinary FTy.f64 false 16 16 16 1 [56,48,48,48,48,48,48,48,48,48,48,48,48,52,48,48,48] none = ⟨0, 1090⟩ := by
+  decide +kernel
 
 end LexVerif.Props.C05
